@@ -1150,6 +1150,12 @@ class SpaceGraph(nx.DiGraph):
         shared_desc = get_shared_desc(subspace, basespace)
         if shared_desc:
             shared_desc = shared_desc.split(".")
+            # The shared part must leave a root on both sides
+            # (e.g. sub space "A.B" deriving from top-level space "B")
+            excess = len(shared_desc) - min(
+                len_node(subspace), len_node(basespace)) + 1
+            if excess > 0:
+                shared_desc = shared_desc[excess:]
         else:
             shared_desc = []
 
